@@ -5,6 +5,7 @@ use crate::prop::*;
 use crate::rng::{hash_str, Rng};
 use crate::vmutil::*;
 use gluon::query::CompilationBase;
+use gluon::vm::thread::ThreadInternal;
 use gluon::vm::verif;
 use gluon::{RootedThread, ThreadExt};
 use serde_json::{json, Value};
@@ -25,6 +26,7 @@ impl Prop for C14 {
         let mut v = vec![
             Phase::new("rounds", tier.pick(1200, 30_000)).min_cases(tier.pick(400, 10_000)).timeouts(180, tier.pick(500, 3000)),
             Phase::new("std-imports", tier.pick(800, 30_000)).min_cases(tier.pick(300, 10_000)).timeouts(400, tier.pick(600, 3000)),
+            Phase::new("channel-rounds", tier.pick(600, 20_000)).min_cases(tier.pick(200, 6000)).timeouts(400, tier.pick(600, 3000)),
             Phase::new("rounds-asan", tier.pick(120, 3000)).build(Build::Asan).min_cases(tier.pick(40, 1000)).timeouts(300, tier.pick(500, 3000)),
         ];
         if tier == Tier::Thorough {
@@ -35,12 +37,13 @@ impl Prop for C14 {
     fn worker(&self, ctx: &WorkerCtx) -> Box<dyn Worker> {
         crate::worker::set_cpu_budget(900.0);
         crate::worker::set_idle_hang(15.0);
-        Box::new(W { std_imports: ctx.phase.starts_with("std-imports") })
+        Box::new(W { std_imports: ctx.phase.starts_with("std-imports"), channels: ctx.phase.starts_with("channel-rounds") })
     }
 }
 
 struct W {
     std_imports: bool,
+    channels: bool,
 }
 
 /// standard-library modules imported cold and concurrently (extern modules with dependencies on
@@ -112,6 +115,13 @@ fn plain_vm(rt: Option<&tokio::runtime::Runtime>, prelude: bool) -> RootedThread
 
 impl Worker for W {
     fn gen(&mut self, rng: &mut Rng, idx: u64) -> Option<Value> {
+        if self.channels {
+            let tag = format!("{:x}", rng.next() & 0xfffff);
+            let nthreads = 1 + rng.below(6);
+            let counts: Vec<usize> = (0..nthreads).map(|_| *rng.pick(&[1usize, 5, 20, 60, 150])).collect();
+            return Some(json!({"channel_round": true, "tag": tag, "counts": counts, "churn": *rng.pick(&[50u64, 400, 3000]), "stress": *rng.pick(&[0usize, 0, 7, 101]), "sched_seed": rng.next() >> 1,
+                               "key": {"driver": "threads", "channel_round": true}}));
+        }
         if self.std_imports {
             let nthreads = *rng.pick(&[2usize, 3, 4, 6, 8]);
             let tag = format!("{:x}", rng.next() & 0xfffff);
@@ -161,6 +171,9 @@ impl Worker for W {
     }
 
     fn run(&mut self, case: &Value) -> CaseResult {
+        if case["channel_round"] == true {
+            return run_channel_round(case);
+        }
         let hash = hash_str(&case.to_string());
         let modules: Vec<(String, String)> = case["modules"].as_array().map(|a| a.iter().map(|m| (m["name"].as_str().unwrap_or("").to_string(), m["src"].as_str().unwrap_or("").to_string())).collect()).unwrap_or_default();
         let workers: Vec<(String, String)> = case["workers"].as_array().map(|a| a.iter().map(|m| (m["name"].as_str().unwrap_or("").to_string(), m["src"].as_str().unwrap_or("").to_string())).collect()).unwrap_or_default();
@@ -350,4 +363,150 @@ impl Worker for W {
 
 fn clip(s: &str) -> String {
     s.chars().take(240).collect()
+}
+
+
+/// One channel owned by the root thread; every child thread (own OS thread) sends strings it
+/// builds at run time while the root's OS thread keeps allocating (so that the root collects and
+/// scans its children); afterwards the root drains the channel: every message exactly once, in
+/// sending order per sender.
+fn run_channel_round(case: &Value) -> CaseResult {
+    use std::sync::atomic::{AtomicBool, Ordering};
+    let hash = hash_str(&case.to_string());
+    let tag = case["tag"].as_str().unwrap_or("t").to_string();
+    let counts: Vec<usize> = case["counts"].as_array().map(|a| a.iter().filter_map(|x| x.as_u64().map(|x| x as usize)).collect()).unwrap_or_default();
+    let churn_n = case["churn"].as_u64().unwrap_or(100) as i64;
+    let stress = case["stress"].as_u64().unwrap_or(0) as usize;
+    let vm = gluon::new_vm();
+    Settings { prelude: true, run_io: true, ..Settings::PLAIN }.apply(&vm);
+    // the channel lives in the root thread; its two ends are handed to the threads by the host
+    let chan_val: gluon::vm::api::OpaqueValue<RootedThread, gluon::vm::api::Hole> = match vm.run_expr(&format!("c14chan_{}", tag), "let { channel } = import! std.channel\nchannel \"\"\n") {
+        Ok((v, _)) => v,
+        Err(e) => return CaseResult::inconclusive(hash, format!("channel: {}", e)),
+    };
+    let (sender, receiver) = match chan_val.get_ref() {
+        gluon::vm::api::ValueRef::Data(d) if d.len() == 2 => (vm.root_value(d.get_variant(0).unwrap()), vm.root_value(d.get_variant(1).unwrap())),
+        _ => return CaseResult::inconclusive(hash, "channel value is not a two-field record"),
+    };
+    let (sender, receiver): (gluon::vm::thread::RootedValue<RootedThread>, gluon::vm::thread::RootedValue<RootedThread>) = (sender, receiver);
+    let churn_src = "let array = import! std.array\nrec let churn n acc : Int -> Int -> Int = if n == 0 then acc else churn (n - 1) (array.len [n, n, n] + acc - 3)\nchurn\n";
+    let mut churn: gluon::vm::api::OwnedFunction<fn(i64, i64) -> i64> = match vm.run_expr(&format!("c14churn_{}", tag), churn_src) {
+        Ok((f, _)) => f,
+        Err(e) => return CaseResult::inconclusive(hash, format!("churn function: {}", e)),
+    };
+    let workers: Vec<(String, String)> = counts
+        .iter()
+        .enumerate()
+        .map(|(j, k)| {
+            (
+                format!("c14cw{}_{}", j, tag),
+                format!(
+                    "let {{ wrap }} = import! std.applicative\nlet io @ {{ ? }} = import! std.io\nlet {{ send }} = import! std.channel\n\\sender -> \\u ->\n    rec let go i =\n        if i == {} then wrap i\n        else\n            do _ = send sender (\"t{}m\" ++ show i)\n            go (i + 1)\n    go 0\n",
+                    k, j
+                ),
+            )
+        })
+        .collect();
+    let children: Vec<RootedThread> = match workers.iter().map(|_| vm.new_thread()).collect::<Result<Vec<_>, _>>() {
+        Ok(c) => c,
+        Err(e) => return CaseResult::inconclusive(hash, format!("new_thread failed: {}", e)),
+    };
+    verif::reset_counters();
+    verif::set_sched_seed(case["sched_seed"].as_u64().unwrap_or(1));
+    verif::set_gc_stress(stress);
+    let n = workers.len();
+    let barrier = Arc::new(Barrier::new(n + 1));
+    let running = Arc::new(AtomicBool::new(true));
+    let mut handles = Vec::new();
+    type Opq = gluon::vm::api::OpaqueValue<RootedThread, gluon::vm::api::Hole>;
+    for (child, (name, src)) in children.iter().cloned().zip(workers.iter().cloned()) {
+        // compile the sender function on the child and give it the sender before anything runs
+        // concurrently
+        let f: Result<(gluon::vm::api::OwnedFunction<fn(Opq) -> Opq>, _), _> = child.run_expr(&name, &src);
+        let mut f = match f {
+            Ok((f, _)) => f,
+            Err(e) => return CaseResult::inconclusive(hash, format!("sender program rejected: {}", e.to_string().lines().next().unwrap_or(""))),
+        };
+        let action: Opq = match f.call(gluon::vm::api::OpaqueValue::from_value(sender.clone())) {
+            Ok(a) => a,
+            Err(e) => return CaseResult::inconclusive(hash, format!("handing over the sender failed: {}", e)),
+        };
+        let barrier = barrier.clone();
+        handles.push(std::thread::Builder::new().stack_size(64 << 20).spawn(move || {
+            let mut run: gluon::vm::api::OwnedFunction<fn(()) -> gluon::vm::api::IO<i64>> = gluon::vm::api::Getable::from_value(&child, action.get_variant());
+            barrier.wait();
+            match run.call(()) {
+                Ok(gluon::vm::api::IO::Value(v)) => Outcome::Value(format!("{}", v), String::new()),
+                Ok(gluon::vm::api::IO::Exception(e)) => Outcome::Error("io-exception".into(), e),
+                Err(e) => {
+                    let (c, m) = classify_error(&e.into());
+                    Outcome::Error(c, m)
+                }
+            }
+        }));
+    }
+    barrier.wait();
+    // the owner of the channel keeps allocating (and therefore collecting) while the sends run
+    let mut churned = 0u64;
+    let done = {
+        let running = running.clone();
+        std::thread::spawn(move || {
+            let out: Vec<Outcome> = handles
+                .into_iter()
+                .map(|h| match h {
+                    Ok(h) => h.join().unwrap_or_else(|_| Outcome::Error("thread-panic".into(), String::new())),
+                    Err(e) => Outcome::Error("spawn".into(), e.to_string()),
+                })
+                .collect();
+            running.store(false, Ordering::SeqCst);
+            out
+        })
+    };
+    while running.load(Ordering::SeqCst) {
+        let _ = churn.call(churn_n, 0);
+        churned += 1;
+    }
+    let results = done.join().unwrap_or_default();
+    verif::set_gc_stress(0);
+    verif::set_sched_seed(0);
+    let mut res = CaseResult::ok(hash, n >= 2);
+    for (j, (got, k)) in results.iter().zip(counts.iter()).enumerate() {
+        let ok = matches!(got, Outcome::Value(v, _) if v.trim() == format!("{}", k));
+        if !ok {
+            return CaseResult::violation(hash, format!("channel round: sender {} returned `{}` instead of {}", j, got.short().chars().take(200).collect::<String>(), k), json!({"kind": "sender-failed", "driver": "threads"}));
+        }
+    }
+    // drain
+    let drain_src = "let { wrap } = import! std.applicative\nlet io @ { ? } = import! std.io\nlet { recv } = import! std.channel\nlet { Result } = import! std.types\nlet array = import! std.array\n\\receiver ->\n    rec let drain acc =\n        do r = recv receiver\n        match r with\n        | Ok s -> drain (array.append acc [s])\n        | Err _ -> wrap acc\n    drain []\n";
+    let drain: Result<(gluon::vm::api::OwnedFunction<fn(Opq) -> gluon::vm::api::IO<Vec<String>>>, _), _> = vm.run_expr(&format!("c14drain_{}", tag), drain_src);
+    let got: Vec<String> = match drain {
+        Ok((mut f, _)) => match f.call(gluon::vm::api::OpaqueValue::from_value(receiver.clone())) {
+            Ok(gluon::vm::api::IO::Value(v)) => v,
+            Ok(gluon::vm::api::IO::Exception(e)) => return CaseResult::violation(hash, format!("draining the channel failed: {}", e), json!({"kind": "drain-failed", "driver": "threads"})),
+            Err(e) => return CaseResult::violation(hash, format!("draining the channel failed: {}", e), json!({"kind": "drain-failed", "driver": "threads"})),
+        },
+        Err(e) => return CaseResult::inconclusive(hash, format!("drain program rejected: {}", e.to_string().lines().next().unwrap_or(""))),
+    };
+    let mut next: Vec<usize> = vec![0; n];
+    for s in &got {
+        let parsed = s.strip_prefix('t').and_then(|r| r.split_once('m')).and_then(|(j, i)| Some((j.parse::<usize>().ok()?, i.parse::<usize>().ok()?)));
+        match parsed {
+            Some((j, i)) if j < n && i == next[j] => next[j] += 1,
+            _ => {
+                return CaseResult::violation(hash, format!("channel round: message `{}` arrives out of order or twice (next expected per sender: {:?})", s, next), json!({"kind": "channel-order-or-duplicate", "driver": "threads"}));
+            }
+        }
+    }
+    if next != counts {
+        return CaseResult::violation(hash, format!("channel round: messages lost: received per sender {:?}, sent {:?}", next, counts), json!({"kind": "channel-message-lost", "driver": "threads"}));
+    }
+    let rep = vm.verif_check_heaps();
+    if let Some(e) = rep.bad.first() {
+        let short = |t: &str| t.rsplit("::").next().unwrap_or(t).trim_end_matches('>').to_string();
+        return CaseResult::violation(hash, format!("after the channel round: bad heap edge to a {}", short(e.type_name)), json!({"kind": if e.to_heap.is_none() { "dangling-edge" } else { "ownership-edge" }, "target_type": short(e.type_name), "driver": "threads"}));
+    }
+    res.stat("channel_rounds", 1).stat("messages_delivered_exactly_once_in_order", got.len() as u64).stat("owner_allocation_loops_during_sends", churned).stat("threads_run", n as u64);
+    res.stat("forced_collections", verif::FORCED_COLLECTIONS.load(std::sync::atomic::Ordering::SeqCst) as u64);
+    res.feat(format!("channel-senders-{}", n));
+    res
 }
